@@ -65,7 +65,6 @@ CONVENTIONS = {
 @document_load_one(
     "Gaussian Formatted Checkpoint",
     [
-        "atcharges",
         "atcoords",
         "atnums",
         "atcorenums",
@@ -73,10 +72,20 @@ CONVENTIONS = {
         "mo",
         "obasis",
         "obasis_name",
-        "run_type",
         "title",
     ],
-    ["energy", "atfrozen", "atgradient", "athessian", "atmasses", "one_rdms", "extra", "moments"],
+    [
+        "energy",
+        "atcharges",
+        "atfrozen",
+        "atgradient",
+        "athessian",
+        "atmasses",
+        "one_rdms",
+        "extra",
+        "moments",
+        "run_type",
+    ],
 )
 def load_one(lit: LineIterator) -> dict:
     """Do not edit this docstring. It will be overwritten."""
